@@ -689,6 +689,38 @@ func runC17(run *Run, replay string) {
 				Func: "schema." + name + ".Copy", Detail: diff, Replay: map[string]interface{}{"type": name, "variant": "element-less", "index": i}})
 		}
 	}
+	// attributes that say nothing about their value (no constraint: legitimate for computed-only attributes), alone
+	// and inside every value that holds attributes
+	bare := func() *schema.AttributeSchema { return &schema.AttributeSchema{IsComputed: true, Description: lang.Markdown("d")} }
+	for i, c := range []interface{}{
+		bare(),
+		&schema.BodySchema{Attributes: map[string]*schema.AttributeSchema{"c": bare(), "k": {IsOptional: true, Constraint: kw}}},
+		&schema.BodySchema{AnyAttribute: bare()},
+		&schema.BlockSchema{Body: &schema.BodySchema{Attributes: map[string]*schema.AttributeSchema{"c": bare()}}},
+		&schema.BlockSchema{DependentBody: map[schema.SchemaKey]*schema.BodySchema{
+			schema.NewSchemaKey(schema.DependencyKeys{Labels: []schema.LabelDependent{{Index: 0, Value: "x"}}}): {Attributes: map[string]*schema.AttributeSchema{"c": bare()}}}},
+		schema.ObjectAttributes{"c": bare()},
+		schema.Object{Attributes: schema.ObjectAttributes{"c": bare(), "k": {IsOptional: true, Constraint: kw}}},
+		schema.List{Elem: schema.Object{Attributes: schema.ObjectAttributes{"c": bare()}}},
+	} {
+		cp, pan := callCopy(reflect.ValueOf(c))
+		run.Res.Evaluations++
+		run.Count("constraint_less_attributes")
+		t := reflect.TypeOf(c)
+		for t.Kind() == reflect.Ptr {
+			t = t.Elem()
+		}
+		name := t.Name()
+		if pan != "" {
+			run.Violate(Violation{Key: "C17/panic/" + name, Rule: "Copy() returns without panicking", Func: "schema." + name + ".Copy",
+				Detail: pan, Replay: map[string]interface{}{"type": name, "variant": "constraint-less-attribute", "index": i, "value": fmt.Sprintf("%#v", c)}})
+			continue
+		}
+		if eq, diff := deepEqual(c, cp.Interface()); !eq {
+			run.Violate(Violation{Key: "C17/not-equal/" + name, Rule: "the copy is structurally equal to the original in every field",
+				Func: "schema." + name + ".Copy", Detail: diff, Replay: map[string]interface{}{"type": name, "variant": "constraint-less-attribute", "index": i}})
+		}
+	}
 	writeFieldsTable(table, filepath.Join(run.OutDir, "Fields.v"))
 	run.Res.Extra = map[string]interface{}{"fields_in_table": len(table)}
 }
